@@ -86,7 +86,20 @@ class SubScenario(cmdscn.CmdScenario):
                 v.append('sub-workflow %s runs in namespace %r, the caller '
                          'in %r' % (w['name'], params.get('namespace'),
                                     rparams.get('namespace')))
-            if w['state'] in FINAL and not with_items and not stopped:
+            # a retried sub-workflow task has one child per attempt: only
+            # the accepted one is the task's result
+            sibs = [x for x in ws.values()
+                    if x['task_execution_id'] == w['task_execution_id']]
+            superseded = len(sibs) > 1 and not w['accepted'] and any(
+                x['id'] > w['id'] for x in sibs)
+            if not with_items and len(sibs) > 1 and w is sibs[0]:
+                n_acc = sum(1 for x in sibs if x['accepted'])
+                if pt['state'] in FINAL and n_acc != 1:
+                    v.append('task %s ran %d sub-workflows (retry) and %d '
+                             'of them count as its result, not exactly the '
+                             'last one' % (pt['name'], len(sibs), n_acc))
+            if w['state'] in FINAL and not with_items and not stopped \
+                    and not superseded:
                 if pt['state'] != w['state']:
                     v.append('sub-workflow %s is %s but its parent task %s '
                              'is %s' % (w['name'], w['state'], pt['name'],
@@ -157,6 +170,22 @@ def programs():
         {'meta': {'namespaces': {'wf': ['N'], 'mid': [''],
                                  'sub': ['N', '']},
                   'root_namespace': 'N'}})
+    # retry around a sub-workflow task: every attempt is a new child; only
+    # the last one counts (continue-on repeats a successful child)
+    P['retry_continue_on'] = (direct(
+        {'a': T(workflow='sub', publish={'r': ['result']},
+                retry={'count': 1, 'delay': 0, 'continue-on': ['true']},
+                **{'wf-input': {'k': ['lit', 1]}, 'on-success': ['b'],
+                   'on-error': ['c']}),
+         'b': T(), 'c': T()}, subs={'sub': leaf}), {})
+    P['retry_child_fails_once'] = (direct(
+        {'a': T(workflow='sub', publish={'r': ['result']},
+                retry={'count': 1, 'delay': 0},
+                **{'wf-input': {'k': ['lit', 1]}, 'on-success': ['b'],
+                   'on-error': ['c']}),
+         'b': T(), 'c': T()}, subs={'sub': leaf}),
+        {'assigns': [{'s1': ['E', 'S'], 's2': ['S'], 'a': ['S'],
+                      'b': ['S'], 'c': ['S']}]})
     # the same shapes inside a workbook (members call each other by their
     # short names, resolved to <workbook>.<name>)
     wb = wfgen.clone(P['by_name'][0])
@@ -182,6 +211,9 @@ def scenarios(tier):
         assigns = [{k: ['S'] for k in keys},
                    {k: ['E' if k == 's1' else 'S'] for k in keys},
                    {k: ['E' if k == 's2' else 'S'] for k in keys}]
+        if extra.get('assigns'):
+            assigns = extra['assigns']
+            extra = {k: v for k, v in extra.items() if k != 'assigns'}
         for res in assigns[:(2 if quick and pname != 'by_name' else 3)]:
             tag = ''.join(res[k][0] for k in sorted(res))
             for rpc in (False, True):
